@@ -227,6 +227,10 @@ class Mapper(Client):
             self.last_map = dict(o)
             self.last_map.pop("out", None)
             return o
+        if k == "remap" and r.random() < 0.5:
+            t = self.twin_remap()
+            if t is not None:
+                return t
         if k == "remap":
             # same seed, same configuration, after whatever happened in between
             lm = getattr(self, "last_map", None)
@@ -329,6 +333,44 @@ class Mapper(Client):
                 "out": w.new_id("dist"), "reject": True}
 
     queue_draw = None
+    pending: list = []
+
+    def twin_remap(self):
+        """The last map again, with the same seed, on a *separately built* but
+        identically configured error model and interferometer."""
+        r, w = self.rng, self.w
+        lm = getattr(self, "last_map", None)
+        if lm is None or not w.has("reck", lm["r"]) or not w.has("c", lm["c"]):
+            return None
+        if len(w.pool["dist"]) > 12 or len(w.pool["reck"]) > 8:
+            return None
+        rm = w.meta["reck"][lm["r"]]
+        em_id = rm.get("em")
+        if em_id is None or not w.has("em", em_id):
+            return None
+        em = w.meta["em"][em_id]
+        new_em, new_r = w.new_id("em"), w.new_id("reck")
+        q = [{"op": "new_errmodel", "out": new_em}]
+        made = {}
+        for attr in ("bs_reflectivity", "loss", "phase_offset"):
+            d = em.get(attr)
+            if d is None or not w.has("dist", d):
+                continue
+            if d not in made:
+                nd = w.new_id("dist")
+                made[d] = nd
+                dm = w.meta["dist"][d]
+                q.append({"op": "new_dist", "dkind": dm["dkind"],
+                          "args": list(dm["args"]), "out": nd,
+                          "seed": self.seed_value(), "role": dm.get("role")})
+            q.append({"op": "em_set", "em": new_em, "attr": attr, "d": made[d]})
+        if not made:
+            return None
+        q.append({"op": "new_reck", "out": new_r, "em": new_em})
+        q.append({"op": "reck_map", "r": new_r, "c": lm["c"], "seed": lm["seed"]})
+        self.pending = q
+        w.stats["intent:twin_remap"] += 1
+        return self.pending.pop(0)
 
     def new_dist(self, role=None):
         r, w = self.rng, self.w
@@ -375,6 +417,11 @@ class Mapper(Client):
 
 class MapperClient(Mapper):
     def propose(self):
+        while self.pending:
+            o = self.pending.pop(0)
+            ok = all(self.w.has(kk, o[f]) for f, kk in (("c", "c"),) if f in o)
+            if ok:
+                return o
         if self.queue_draw is not None:
             o, self.queue_draw = self.queue_draw, None
             if self.w.has("dist", o["d"]):
